@@ -24,6 +24,8 @@ FORBIDDEN = re.compile(
 )
 
 sys.path.insert(0, HERE)
+if REPO not in sys.path[:2]:
+    sys.path.insert(0, REPO)   # the library under test is imported from VERIF_REPO's working tree, never from site-packages
 import translate  # noqa: E402
 import genreg  # noqa: E402
 
